@@ -21,6 +21,7 @@ import shutil
 import subprocess
 import sys
 import time
+import uuid
 from dataclasses import dataclass, field
 
 VERIF = os.path.dirname(os.path.dirname(os.path.abspath(__file__)))
@@ -84,7 +85,7 @@ def run_tlc(module, cfg, workdir, workers=None, env=None, args=(), timeout=3600,
     """Run TLC on SPECS/<module>.tla with SPECS/<cfg>.  Returns TlcResult (never raises on
     property violation; raises MachineryError when TLC itself failed to run/parse)."""
     os.makedirs(workdir, exist_ok=True)
-    meta = os.path.join(workdir, "meta-%d-%d" % (os.getpid(), int(time.time() * 1000) % 10 ** 9))
+    meta = os.path.join(workdir, "meta-%d-%s" % (os.getpid(), uuid.uuid4().hex[:12]))
     cmd = _java_cmd(props) + [
         "-metadir", meta, "-noGenerateSpecTE",
         "-workers", str(workers or os.environ.get("VERIF_TLC_WORKERS") or "auto"),
@@ -420,7 +421,7 @@ class Ctx:
 
         def one(si):
             sh = shards[si]
-            path = os.path.join(self.work, "traces-%s-%d-%d.json" % (module, si, int(time.time() * 1e6) % 10 ** 9))
+            path = os.path.join(self.work, "traces-%s-%d-%s.json" % (module, si, uuid.uuid4().hex[:12]))
             with open(path, "w") as f:
                 json.dump(sh, f, separators=(",", ":"))
             e = {"TRACE_FILE": path}
